@@ -76,6 +76,32 @@ def sites_in(func_node, btext, offs):
     body_nodes = []
     for st in func_node.body:
         body_nodes.extend(ast.walk(st))
+    # ---- SWAP: two adjacent simple statements exchanged (order of effects).  Only where both have an effect beyond a local
+    # binding (a call, an await, a store to an attribute / subscript) and neither is a log call.
+    def _effect(st):
+        if not isinstance(st, (ast.Expr, ast.Assign, ast.AugAssign, ast.Delete)):
+            return False
+        t = _u(st)
+        if "log(" in t or "_log(" in t or "debug(" in t or "warning(" in t:
+            return False
+        if any(isinstance(x, (ast.Call, ast.Await)) for x in ast.walk(st)):
+            return True
+        if isinstance(st, ast.Expr):
+            return False
+        tg = st.targets if isinstance(st, (ast.Assign, ast.Delete)) else [st.target]
+        return any(isinstance(x, (ast.Attribute, ast.Subscript)) for x in tg)
+    for parent in [func_node] + body_nodes:
+        for fld in ("body", "orelse", "finalbody"):
+            lst = getattr(parent, fld, None)
+            if not isinstance(lst, list):
+                continue
+            for a, b in zip(lst, lst[1:]):
+                if _effect(a) and _effect(b) and a.col_offset == b.col_offset:
+                    s0, _e0 = _rng(a, offs)
+                    _s1, e1 = _rng(b, offs)
+                    pad = " " * a.col_offset
+                    out.append(Site("SWAP", s0, e1, _u(b).replace("\n", "\n" + pad) + "\n" + pad + _u(a).replace("\n", "\n" + pad), a.lineno,
+                                    "swap `%s` <-> `%s`" % (_u(a)[:40], _u(b)[:40])))
     first = func_node.body[0] if func_node.body else None
     for n in body_nodes:
         # ---- statement deletion
